@@ -114,6 +114,12 @@ def never_written(prog, qn):
 
 
 import itertools as _it
+class PodRecord(dict):
+    """fields of a plain C structure: a field never stored to reads as indeterminate"""
+    def __missing__(self, k):
+        return UNINIT
+
+
 _UNIQ = _it.count(1)       # names of interpreter-made objects are unique for the life of the process (never derived from addresses)
 
 
@@ -819,6 +825,8 @@ class Run:
                         self.boxed[l[1]] = name
                     bn_, bi_ = self.boxslot(l[1])
                     return ('P', bn_, bi_)
+                if l[0] == 'mem' and (l[2].get('rec') or '') and not (l[2].get('rec') or '').startswith('asl::'):
+                    return ('PM', l[1])            # address of a native (C library) member of the current object: opaque, for stubs
                 raise Unsupported('address of `%s`' % pe(e['e']))
             if op in ('post++', 'post--', 'pre++', 'pre--'):
                 l = self.lv(e['e'])
@@ -1561,6 +1569,14 @@ class Run:
                 if not (isinstance(rv, tuple) and rv[0] == 'R' and rv[1] in self.recs):
                     raise Unsupported('local %s of type %s' % (v['n'], tv.get('s')))
                 name = self.new_record(tv['rec'], copy_of=rv[1])
+            self.vars[v['id']] = ('R', name)
+            return
+        trivial_ = v.get('init') is None or (strip(v['init']).get('k') == 'construct' and strip(v['init']).get('trivial') and not strip(v['init']).get('a'))
+        if trivial_ and tv.get('rec') and not tv.get('ref') and not tv.get('ptr') and not tv['rec'].startswith('asl::') and \
+                not self.record_class_has_bodies(tv['rec']):
+            # a local plain structure (struct timespec, ...) without initialiser: a record whose fields are indeterminate
+            name = 'pod%d' % next(_UNIQ)
+            self.recs[name] = PodRecord()
             self.vars[v['id']] = ('R', name)
             return
         if v.get('init') is None:
